@@ -362,9 +362,13 @@ PROPS["C09"] = {
 }
 
 PROPS["C10"] = {
-    "lean": ["TinkVerif.Props.C10", "TinkVerif.Props.C10Hint"],
+    "lean": ["TinkVerif.Props.C10", "TinkVerif.Props.C10Hint", "TinkVerif.Props.C10Pack", "TinkVerif.Kat.MldsaPack"],
     "theorems": T("TinkVerif.Gen.Mldsa", "useHint_makeHint useHint_makeHint_norm useHint_close useHint_zero decompose_recompose "
-                  "lowBits_small_highBits_stable power2Round_bound") + T("TinkVerif.Gen.Mldsa", "reduceOnce_spec add_spec sub_spec neg_spec mul_spec power2Round_spec power2Round_fips "
+                  "lowBits_small_highBits_stable power2Round_bound") +
+                T("TinkVerif.Model.MldsaPack", "simpleBitUnpack_simpleBitPack simpleBitPack_simpleBitUnpack simpleBitPack_bijective_256 "
+                  "bitUnpack_bitPack bitPack_bitUnpack mldsa_bitPack_bijective hintBitUnpack_hintBitPack hintBitUnpack_canonical "
+                  "hintBitUnpack_injective hintBitUnpack_reject_counter_decreasing hintBitUnpack_reject_index_not_increasing "
+                  "hintBitUnpack_reject_nonzero_padding hintBitUnpack_reject_counter_gt_omega mldsa_hint_laws w1Encode_injective") + T("TinkVerif.Gen.Mldsa", "reduceOnce_spec add_spec sub_spec neg_spec mul_spec power2Round_spec power2Round_fips "
                   "divBy2Gamma2_88 divBy2Gamma2_32 decompose_spec88 decompose_spec32 decompose_fips88 decompose_fips32 highBits_eq "
                   "lowBits_eq useHint_spec88 useHint_spec32 makeHint_spec centeredAbs_spec centeredMax_spec zetas_spec consts_spec"),
     "harness": [{"name": "c10", "pre": True, "timeout": 3000}],
@@ -481,11 +485,15 @@ PROPS["C06"] = {
 }
 
 PROPS["C12"] = {
-    "lean": ["TinkVerif.Props.C12", "TinkVerif.Props.C12TableDefs", "TinkVerif.Props.C12Tables"],
+    "lean": ["TinkVerif.Props.C12", "TinkVerif.Props.C12TableDefs", "TinkVerif.Props.C12Tables", "TinkVerif.Props.C12BigInt"],
     "theorems": ["TinkVerif.Wire.decVarint_enc", "TinkVerif.Wire.decVarint_canon", "TinkVerif.Wire.decField_enc",
                  "TinkVerif.Wire.decode_encode", "TinkVerif.Wire.encode_decode", "TinkVerif.Keyset.handleOf_toKeyset"] +
                 T("TinkVerif.Gen.EnumTables", "enum_tables_round_trip enum_tables_injective exception_is_one_cell enum_tables_parser_range "
-                  "every_serializer_table_paired prefix_tables_follow_convention coverage"),
+                  "every_serializer_table_paired prefix_tables_follow_convention coverage parser_prefix_consistent") +
+                T("TinkVerif.C12BigInt", "toFixed_eq toFixed_isSome_iff toFixed_length toFixed_value toFixed_canonical toFixed_leading_zeros "
+                  "toFixed_idem minimal_canonical pad_eq_toFixed parseCoord_protoCoord protoCoord_parseCoord ecParse_ecSerialize "
+                  "ecSerialize_ecParse ec_reserialize_identical adjust_ok_iff adjust_lengths adjust_values rsaParse_rsaSerialize "
+                  "rsa_reserialize_identical rsaParse_canonical"),
     "harness": [{"name": "c12", "timeout": 3000}],
     "reports": ["Reports/C12.lean"],
     "rule": "for every registered key type × the grid of valid parameter combinations reachable through the public NewParameters "
